@@ -29,6 +29,36 @@ class Vars:
 
 
 def build(r, V):
+    """build the cspuz object of a recipe.  When V carries a `pool` (dict), equal sub-recipes are built
+    once and the SAME object is reused wherever they occur again (expression DAGs, as user code that keeps
+    a partial sum in a variable produces them), and the binary operators are applied in their augmented
+    form (`a += b`, `a &= b`, ...), which must not change an object that is still referenced elsewhere."""
+    pool = getattr(V, "pool", None)
+    if pool is None or r[0] in ("bvar", "ivar", "blit", "ilit"):
+        return _build(r, V)
+    import json
+
+    key = json.dumps(r)
+    if key not in pool:
+        pool[key] = _build(r, V)
+    return pool[key]
+
+
+def _aug(op, a, b):
+    if op == "add":
+        a += b
+    elif op == "sub":
+        a -= b
+    elif op == "and":
+        a &= b
+    elif op == "or":
+        a |= b
+    else:
+        a ^= b
+    return a
+
+
+def _build(r, V):
     import cspuz
     from cspuz import constraints as C
     from cspuz.array import BoolArray1D, IntArray1D
@@ -47,6 +77,8 @@ def build(r, V):
     if t in BOOL_BIN:
         a = build(r[1], V)
         b = build(r[2], V)
+        if getattr(V, "pool", None) is not None and t in ("and", "or", "xor"):
+            return _aug(t, a, b)
         if t == "and":
             return a & b
         if t == "or":
@@ -78,6 +110,8 @@ def build(r, V):
             return a > b
     if t == "neg":
         return -build(r[1], V)
+    if t in ("add", "sub") and getattr(V, "pool", None) is not None:
+        return _aug(t, build(r[1], V), build(r[2], V))
     if t == "add":
         return build(r[1], V) + build(r[2], V)
     if t == "sub":
